@@ -4,7 +4,7 @@ CONSTANTS
   SeedCap = 1
   MaxMut = 2
   Ops1 = {"trunc", "set", "drop", "nest", "tlv", "random"}
-  Ops2 = {"trunc", "drop"}
+  Ops2 = {"trunc"}
   NestDepths = {1, 2}
   SpliceWindow = 2
   OctetSel = {"empty", "b1", "m1", "p1", "flip0", "x2", "badb64", "null"}
